@@ -9,6 +9,8 @@ import (
 	errgrpc "github.com/cockroachdb/errors/grpc"
 	"github.com/cockroachdb/errors/grpc/middleware"
 	"google.golang.org/grpc"
+	"google.golang.org/grpc/codes"
+	"google.golang.org/grpc/status"
 )
 
 // Cluster is a real gRPC server with the library's server interceptor and
@@ -23,6 +25,10 @@ type Cluster struct {
 	mu       sync.Mutex
 	errs     map[string]error
 }
+
+// ServerPanicPrefix starts the message of the status a call fails with when
+// the server side panicked.
+const ServerPanicPrefix = "SERVER-PANIC: "
 
 type ctxKey int
 
@@ -54,7 +60,18 @@ func (s *echoServer) Echo(ctx context.Context, req *errgrpc.EchoRequest) (*errgr
 // NewCluster starts the server and dials the clients.
 func NewCluster(seed uint64) (*Cluster, error) {
 	c := &Cluster{L: NewListener(seed), errs: map[string]error{}}
-	c.srv = grpc.NewServer(grpc.UnaryInterceptor(middleware.UnaryServerInterceptor))
+	// a recovery middleware outside the library's interceptor, as services
+	// run one: a panic in the interceptor fails the call instead of taking
+	// the simulated server down
+	recoverInt := func(ctx context.Context, req interface{}, info *grpc.UnaryServerInfo, handler grpc.UnaryHandler) (resp interface{}, err error) {
+		defer func() {
+			if r := recover(); r != nil {
+				err = status.Errorf(codes.Internal, "%s%v", ServerPanicPrefix, r)
+			}
+		}()
+		return handler(ctx, req)
+	}
+	c.srv = grpc.NewServer(grpc.ChainUnaryInterceptor(recoverInt, middleware.UnaryServerInterceptor))
 	errgrpc.RegisterEchoerServer(c.srv, &echoServer{c})
 	go c.srv.Serve(c.L)
 	dial := func(opts ...grpc.DialOption) (*grpc.ClientConn, error) {
